@@ -107,7 +107,9 @@ def test_noise() -> None:
     sim = CustomStateSimulator(ComputationalBasisSimState, noise=x**2)
     circuit = create_test_circuit()
     r = sim.simulate(circuit)
-    assert r.measurements == {'a': np.array([2]), 'b': np.array([2])}
+    # The same as simulating `circuit.with_noise(x**2)` without a noise model: the noise of each
+    # moment is applied once (q0: X -> 1, noise -> 0, measured 0).
+    assert r.measurements == {'a': np.array([0]), 'b': np.array([2])}
     assert r._final_simulator_state._state.basis == [1, 2]  # type: ignore[attr-defined]
 
 
